@@ -52,6 +52,12 @@ func replay(sub string, raw json.RawMessage) ([]h.Failure, error) {
 		}
 		f, _ := checkSegment(c.S)
 		return f, nil
+	case "position":
+		var c posCase
+		if err := json.Unmarshal(raw, &c); err != nil {
+			return nil, err
+		}
+		return checkNamePosition(c), nil
 	case "number":
 		var c strCase
 		if err := json.Unmarshal(raw, &c); err != nil {
